@@ -228,6 +228,24 @@ fn gen_eval(prop: &str, tier: &str, rng: &mut Rng, w: &mut dyn Write) {
             writeln!(w, "eval7_block {} {} {}", a, b, c).unwrap();
         }
     }
+    // 7. comparison of two evaluated hands: seeded pairs, pairs from the same category, and exact ties (same ranks, suits relabelled)
+    for i in 0..(if thorough { 200_000 } else { 6_000 }) {
+        let a = if i % 3 == 0 { hand_of_category(i % 9, rng) } else { rng.distinct(7, 52).into_iter().map(|x| x as usize).collect() };
+        let b: Vec<usize> = match i % 4 {
+            0 => hand_of_category(i % 9, rng),
+            1 => {
+                // relabel suits: a tie by construction
+                let sh = 1 + rng.below(3) as usize;
+                let mut v: Vec<usize> = a.iter().map(|c| (c / 4) * 4 + (c % 4 + sh) % 4).collect();
+                rng.shuffle(&mut v);
+                v
+            }
+            _ => rng.distinct(7, 52).into_iter().map(|x| x as usize).collect(),
+        };
+        let sa: Vec<String> = a.iter().map(|c| c.to_string()).collect();
+        let sb: Vec<String> = b.iter().map(|c| c.to_string()).collect();
+        writeln!(w, "cmp7 {} {}", sa.join(" "), sb.join(" ")).unwrap();
+    }
     // 5. uniform random hands
     for _ in 0..(if thorough { 2_000_000 } else { 20_000 }) {
         let h: Vec<usize> = rng.distinct(7, 52).into_iter().map(|x| x as usize).collect();
@@ -746,6 +764,14 @@ pub fn gen_iter_c08(tier: &str, rng: &mut Rng, w: &mut dyn Write) {
     // a blocked run that ends the enumeration (the last rows hold the blocked card): flop of aces, player holds deuces
     emit_iter(w, &IterCase { mode: "digest-nospec", nextra: 1, flop: [0, 1, 2], scope: Some((46, 47, 48, 49)), rescope: false,
         ranges: vec![vec![(combo_code(50, 51), one)], wide.clone()] });
+    // weights whose product is exactly 0 (a zero weight, an underflowing product) and tiny weights: the enumeration
+    // must still advance and terminate
+    for (wa, wb) in [(0u32, one), (one, 0u32), (0x00000001, 0x00000001), (0x0DA24260, 0x0DA24260), (0x3F000000, 0)] {
+        emit_iter(w, &IterCase { mode: "digest-nospec", nextra: 1, flop, scope: Some((0, 1, 0, 6)), rescope: false,
+            ranges: vec![vec![(combo_code(0, 4), wa), (combo_code(8, 12), one)], vec![(combo_code(16, 20), wb), (combo_code(1, 5), wa)]] });
+        emit_iter(w, &IterCase { mode: "digest-nospec", nextra: 1, flop, scope: Some((40, 41, 48, 49)), rescope: false,
+            ranges: vec![vec![(combo_code(0, 4), wa)]] });
+    }
     // many players (more than 8 / 16 seats), one or two combos each, a few rows of positions
     for &np in &[9usize, 10, 16, 17, 18, 22] {
         // hole cards avoid the first four deck cards, so the deals at the first positions are playable
